@@ -15,6 +15,7 @@ import (
 	"runtime"
 	"strconv"
 	"strings"
+	"time"
 
 	"github.com/logrange/logrange/api"
 	"github.com/logrange/logrange/pkg/model/field"
@@ -231,4 +232,61 @@ func e2eReuse(srv *lrsrv.Srv, sec *vh.Section, cases []e2eCase) {
 		}
 	}
 	res.Note("e2e reuse: %d held-ReqId requests with another equal-length query", ran)
+}
+
+// e2eEarly (open finding F-C05-902): a partition with events stamped below / at / above model.MinTimestamp (the lower bound
+// of the range newFIterator installs when the statement has no RANGE). The SELECT without WHERE returns all of them; with a
+// WHERE that is true for all of them the events below the bound are missing.
+func e2eEarly(srv *lrsrv.Srv, sec *vh.Section) {
+	ctx := context.Background()
+	tss := []int64{minTs + 1, f902Bound - 1, f902Bound, f902Bound + 1, -5, 7}
+	var batch []*api.LogEvent
+	for i, ts := range tss {
+		batch = append(batch, &api.LogEvent{Timestamp: ts, Message: fmt.Sprintf("m%d", i), Fields: "a=x"})
+	}
+	var wr api.WriteResult
+	if err := srv.Client.Write(ctx, "c05=early", "", batch, &wr); err != nil || wr.Err != nil {
+		res.Note("e2e early: write failed: %v %v", err, wr.Err)
+		return
+	}
+	srv.FlushWait()
+	const src = `select from c05="early" `
+	var all []*api.LogEvent
+	for i := 0; i < 200; i++ {
+		all, _ = queryAll(srv, src+"limit 100", 100)
+		if len(all) == len(tss) {
+			break
+		}
+		time.Sleep(20 * time.Millisecond)
+	}
+	if len(all) != len(tss) {
+		res.SpecFail(vh.SpecFailure{Section: "e2e", Kind: "wrong-result", Input: e2eCase{Text: "", Page: 100}, Impl: fmt.Sprintf("%d events", len(all)), Spec: fmt.Sprintf("%d events", len(tss)),
+			What: "the unfiltered SELECT does not return the events written (timestamps around model.MinTimestamp)"})
+		return
+	}
+	for _, text := range []string{`msg contains "m"`, `fields:a = "x"`, `NOT msg contains "zz"`, `ts < 100`} {
+		got, err := queryAll(srv, src+"where "+text+" limit 100", 100)
+		var g, w, known []string
+		for _, e := range got {
+			g = append(g, evKey(e))
+		}
+		for _, e := range all {
+			w = append(w, evKey(e))
+			if e.Timestamp >= f902Bound {
+				known = append(known, evKey(e))
+			}
+		}
+		res.Eval(sec, "early|"+text)
+		res.Dist(sec, "early-timestamps")
+		if err != nil || fmt.Sprint(g) != fmt.Sprint(w) {
+			finding := ""
+			if err == nil && fmt.Sprint(g) == fmt.Sprint(known) {
+				finding = "F-C05-902" // exactly the events below the pinned bound are missing
+			}
+			res.SpecFail(vh.SpecFailure{Section: "e2e", Kind: "early-events-dropped", Input: e2eCase{Text: text, Page: 100, Early: true}, Finding: finding, ImplEqModel: finding != "",
+				Impl: fmt.Sprintf("err=%v %d of %d events", err, len(g), len(w)), Spec: fmt.Sprintf("all %d events of the unfiltered SELECT (the expression is true for each)", len(w)),
+				Model: "fiterator with the regenerated default range: the events below it are dropped",
+				What:  "SELECT … WHERE e without RANGE does not return events stamped before model.MinTimestamp (1754-08-30) although e is true for them and the SELECT without WHERE returns them"})
+		}
+	}
 }
